@@ -124,6 +124,7 @@ pub fn setup(prop: &str, tier: &str, variant: u64) -> Setup {
             p.w_gc = 6;
             p.nested = 30;
             p.cleanup_pct = 40;
+            p.lockstep_pct = 35;
             p.calls = [10, 4, 3, 8, 12, 2, 1, 5, 4, 2, 10, 8, 1, 5, 2, 1, 3, 4, 2, 2, 0, 0];
         }
         _ => {
